@@ -496,7 +496,12 @@ func (s *clientSocket) emitBuffered() {
 
 	s.sendBufferMu.Lock()
 	defer s.sendBufferMu.Unlock()
-	if len(s.sendBuffer) != 0 {
+	// The connection might have been closed since `onConnect` set the state.
+	// The packets are kept for the next connection then, instead of being flushed into a closed one.
+	s.stateMu.RLock()
+	connected := s.state == clientSocketConnStateConnected
+	s.stateMu.RUnlock()
+	if connected && len(s.sendBuffer) != 0 {
 		packets := make([]*eioparser.Packet, len(s.sendBuffer))
 		for i := range packets {
 			packets[i] = s.sendBuffer[i].packet
